@@ -675,7 +675,13 @@ MessageReceivedFromGateway(const MessageRef & msgRef, void * userData)
                   const PathMatcherEntry * e = _subscriptions.GetEntries()[depth].Get(fixPath);
                   if (e)
                   {
-                     const QueryFilter * subscriptionFilter = e->GetFilter()();
+                     const ConstQueryFilterRef oldFilterRef = e->GetFilter();  // keeps the old filter alive until we're done with it
+                     const QueryFilter * subscriptionFilter = oldFilterRef();
+
+                     // Install the new filter first, so that ChangeQueryFilterCallback() can tell whether a node that
+                     // no longer passes this entry's filter is still matched by another one of our subscriptions.
+                     (void) _subscriptions.SetFilterForEntry(fixPath, filter);  // FogBugz #5803
+
                      if ((GetSubscriptionsEnabled())&&((filter() != NULL)||(subscriptionFilter != NULL)))
                      {
                         // If the filter is different, then we need to change our subscribed-set to
@@ -688,9 +694,6 @@ MessageReceivedFromGateway(const MessageRef & msgRef, void * userData)
                            (void) temp.DoTraversal((PathMatchCallback)ChangeQueryFilterCallbackFunc, this, GetGlobalRoot(), false, args);
                         }
                      }
-
-                     // And now, set e's filter to the new filter.
-                     (void) _subscriptions.SetFilterForEntry(fixPath, filter);  // FogBugz #5803
                   }
                   else
                   {
@@ -1324,7 +1327,15 @@ ChangeQueryFilterCallback(DataNode & node, void * ud)
    ConstMessageRef constMsg2 = node.GetData();
    const bool oldMatches = ((constMsg1() == NULL)||(oldFilter == NULL)||(oldFilter->Matches(constMsg1, &node)));
    const bool newMatches = ((constMsg2() == NULL)||(newFilter == NULL)||(newFilter->Matches(constMsg2, &node)));
-   if (oldMatches != newMatches) NodeChangedAux(node, constMsg2, oldMatches?NodeChangeFlags(NODE_CHANGE_FLAG_ISBEINGREMOVED):NodeChangeFlags());
+   if (oldMatches != newMatches)
+   {
+      if (oldMatches)
+      {
+         ConstMessageRef constMsg3 = node.GetData();
+         if (_subscriptions.MatchesNode(node, constMsg3, 0)) return node.GetDepth();  // still matched by another of our subscriptions, so don't tell the client it went away
+      }
+      NodeChangedAux(node, constMsg2, oldMatches?NodeChangeFlags(NODE_CHANGE_FLAG_ISBEINGREMOVED):NodeChangeFlags());
+   }
    return node.GetDepth();  // continue traversal as usual
 }
 
